@@ -185,7 +185,9 @@ def run(ctx):
             _, spec = p
             A = Net.from_spec(spec)
             det = {"case": cid, "circuit": spec if len(spec["nodes"]) < 25 else None}
-            text, e = call(cgio.circuit_to_bench, build(spec))
+            carg = build(spec)
+            text, e = call(cgio.circuit_to_bench, carg)
+            ctx.unchanged("circuit_to_bench", carg, spec)
             if e is not None:
                 ctx.side("bench-writer-raises", False, f"bench-writer:raises:{type(e).__name__}", f"circuit_to_bench raised {e!r}", det)
                 continue
